@@ -62,6 +62,7 @@ BOUNDARIES = [
     "cat:one-element-static", "cat:one-element-tf", "cat:two-elements-tf",
     # rejections: sizes n vs n+1, position of the odd part, zero vs one
     "reject:empty-list", "reject:count-n-vs-n+1-last", "reject:count-n-vs-n+1-first", "reject:count-0-vs-1",
+    "reject:odd-part-is-empty-last", "reject:odd-part-is-empty-first",
     "reject:widths-permuted", "reject:widths-last-col+1", "accept:widths-equal-independent",
     # fill values and columns
     "fill:col-first", "fill:col-last", "fill:only-col", "fill:value=marker(no-op)", "fill:value=existing-value",
@@ -765,6 +766,9 @@ def boundary_cases(rng):
                 A_, B_ = {"t": "base", "cells": a}, {"t": "base", "cells": b}
                 add("reject:count-n-vs-n+1-last" + t, kind, dtype, cat([A_, A_, B_], d, via))
                 add("reject:count-n-vs-n+1-first" + t, kind, dtype, cat([B_, A_, A_], d, via))
+                # the part whose count disagrees holds no cells at all (zero extent along the cat axis)
+                add("reject:odd-part-is-empty-last" + t, kind, dtype, cat([A_, A_, sel(B_, d, sl(1, 1))], d, via))
+                add("reject:odd-part-is-empty-first" + t, kind, dtype, cat([sel(B_, d, {"t": "list", "l": []}), A_], d, via))
                 add("reject:count-0-vs-1" + t, kind, dtype,
                     cat([sel(A_, 1 - d, sl(0, 0)), sel(A_, 1 - d, sl(0, 1))], d, via))
             if kind == "met":
@@ -1714,7 +1718,7 @@ def sanity(cases, obss):
     for b in BOUNDARIES:
         if not any(k == b or k.startswith(b + ":") for k in drawn):
             probs.append(f"boundary {b} never drawn")
-        elif b.startswith(("part:", "cat:one", "cat:two", "reject:empty", "reject:count")):
+        elif b.startswith(("part:", "cat:one", "cat:two", "reject:empty", "reject:count", "reject:odd")):
             for ax in (":0", ":1"):
                 if drawn.get(b + ax, 0) == 0:
                     probs.append(f"boundary {b} never drawn on axis {ax[1:]}")
